@@ -338,9 +338,17 @@ func c01run(c *Ctx, t *c01tx) {
 		case nCoinbase > 0:
 			sig = "accepted tx mixing a coinbase input with other inputs: fee disagreement"
 		}
-		c.Fail(sig, bad+" :: "+op)
+		// the orchestrator re-reads the whole op stream per recorded failure: report the first
+		// few hits of a listed signature, count the rest
+		c01failCount[sig]++
+		c.Count("oracle-fail/" + strings.SplitN(sig, ":", 2)[0])
+		if c01failCount[sig] <= 3 || strings.HasPrefix(sig, "accepted:") {
+			c.Fail(sig, bad+" :: "+op)
+		}
 	}
 }
+
+var c01failCount = map[string]int{}
 
 func minInt(a, b int) int {
 	if a < b {
